@@ -58,6 +58,31 @@ var c05Ctxs = []struct{ name, text string }{
 
 func c05CtxCount() int { return len(c05Exprs) * len(c05Ctxs) * 2 }
 
+// c05CtxProgram returns the idx-th program of the product and its tags.
+func c05CtxProgram(idx int) (string, []string) {
+	d := radix(idx, 2, len(c05Ctxs), len(c05Exprs))
+	inLoop, ctx, e := d[0] == 1, c05Ctxs[d[1]], c05Exprs[d[2]]
+	stmt := strings.ReplaceAll(ctx.text, "%s", e)
+	var b strings.Builder
+	b.WriteString("fn f(a: int) -> int { a }\nfn g() { }\nfn main() {\n    let x = 1;\n    let k = \"k\";\n    let l = [1, 2];\n    let o = new { a: 1 };\n    let ao = new { ? };\n    let an: any = 1;\n")
+	if inLoop {
+		b.WriteString("    loop {\n    " + stmt + "        break;\n    }\n")
+	} else {
+		b.WriteString(stmt)
+	}
+	b.WriteString("}\n")
+	place := "in-function-body"
+	if inLoop {
+		place = "in-loop"
+	}
+	tags := []string{"context:" + ctx.name, "expr:" + e, place}
+	switch e {
+	case "g()", "x = 2", "l[0] = 2", "o.a = 2", "ao[k] = 1", "ao[k] += 1", "(ao[k] = 1)", "an = 1", "an.b = 1":
+		tags = append(tags, "expr-type:null") // a call without result, an assignment
+	}
+	return b.String(), tags
+}
+
 func c05CtxRun(idx int, r *Result) {
 	d := radix(idx, 2, len(c05Ctxs), len(c05Exprs))
 	inLoop, ctx, e := d[0] == 1, c05Ctxs[d[1]], c05Exprs[d[2]]
